@@ -1,6 +1,7 @@
 pub mod conn;
 pub mod conn2;
 pub mod pure;
+pub mod raw;
 pub mod server;
 
 use crate::engine::*;
